@@ -53,6 +53,7 @@ def run(ctx):
         'isotropic': lambda: EC(C11=100., C12=40.),
     }
     recs = []
+    refusals = 0
     reuse = {}
     names = list(classes)
     nprob = 16 if quick else 200
@@ -68,7 +69,12 @@ def run(ctx):
         b_cr = R0.T @ np.array(bl)
         tag = 'p%d:%s:%s' % (pi, cname, kind)
         try:
-            sol = solve_volterra_dislocation(C, b_cr, transform=R0)
+            try:
+                sol = solve_volterra_dislocation(C, b_cr, transform=R0)
+            except ValueError:
+                # exact eigenvalue degeneracy (e.g. a hexagonal crystal with the line along c): excluded by the quantifier, a documented refusal
+                refusals += 1
+                continue
             b = sol.burgers
             # ---- K ------------------------------------------------------------------------------------------------------
             K = np.asarray(sol.K_tensor)
@@ -204,6 +210,7 @@ def run(ctx):
     ctx.states += st_
     ctx.transitions += tr
     ctx.traces += ok
+    ctx.extra['documented_refusals_accepted'] = refusals
     ctx.extra['records'] = {k: sum(1 for r_ in recs if r_['ev'] == k) for k in ('jump', 'homog', 'hooke', 'grad', 'K', 'covar', 'iso', 'limit')}
     import copy
     neg = []
